@@ -253,6 +253,31 @@ func (cc *chainCtx) buildGroups(c *verdict.Ctx, r *rand.Rand, nTargets int, gidx
 		g.Seq = r.Intn(3) == 0
 		gs = append(gs, g)
 	}
+	// position family: for one block of each size 1..9, the last tx (and one other) moved to every position
+	// from -1 to total+2 with index and proof index changed alike
+	bySize := map[int][]int64{}
+	for _, h := range hs {
+		bySize[len(cc.truth[h].Block.Data.Txs)] = append(bySize[len(cc.truth[h].Block.Data.Txs)], h)
+	}
+	unique := func(tx []byte) bool { return len(cc.txs[string(tx)]) == 1 }
+	for size := 1; size <= 9; size++ {
+		cands := bySize[size]
+		for _, k := range r.Perm(len(cands)) {
+			h := cands[k]
+			txs := cc.truth[h].Block.Data.Txs
+			if !unique(txs[size-1]) {
+				continue
+			}
+			c.Count(fmt.Sprintf("position_family.blocks_of_size_%d", size), 1)
+			last := txs[size-1]
+			add(request{Method: "Tx", HashHex: hex.EncodeToString(ref.Sha256(last)), hash: ref.Sha256(last)}, txPositionFalsTx(), "")
+			if o := r.Intn(size); o != size-1 && unique(txs[o]) {
+				add(request{Method: "Tx", HashHex: hex.EncodeToString(ref.Sha256(txs[o])), hash: ref.Sha256(txs[o])}, txPositionFalsTx(), "")
+			}
+			add(request{Method: "TxSearch", Query: fmt.Sprintf("tx.height=%d", h)}, txPositionFalsSearch(-1), "")
+			break
+		}
+	}
 	for t := 0; t < nTargets; t++ {
 		h := hs[r.Intn(len(hs))]
 		noH := func() bool { return r.Intn(4) == 0 }
@@ -578,6 +603,9 @@ func (cc *chainCtx) runGroup(c *verdict.Ctx, g *group) {
 		if g.AtTip {
 			key = lower(m) + "-no-height-relays-falsified-" + class + "-at-tip"
 		}
+		if j.Class == "nonexistent-position" {
+			key = lower(m) + "-relays-nonexistent-position"
+		}
 		if j.Class == "proof-shape-alias" {
 			key = lower(m) + "-relays-proof-index-total-shape-alias"
 		}
@@ -643,6 +671,10 @@ func (cc *chainCtx) serverSide(c *verdict.Ctx) {
 		w := map[string]interface{}{"stream": "server", "chain": cc.spec, "call": how, "height": res.Height, "index": res.Index,
 			"tx_hex": verdict.Hex(res.Tx), "proof_index": res.Proof.Proof.Index, "proof_total": res.Proof.Proof.Total, "proof_data_hex": verdict.Hex(res.Proof.Data)}
 		j := cc.judgeTx(res, true)
+		if !j.OK && (j.Class == "nonexistent-position" || j.Class == "proof-shape-alias" || j.Class == "index" || j.Class == "proof-position") {
+			c.Violation("server-"+strings.Split(how, " ")[0]+"-serves-wrong-position", "rpc/core served a tx with a position (index / proof index / proof total) that is not its position in the block: "+j.Why, w)
+			return
+		}
 		if !j.OK {
 			c.Violation("server-"+strings.Split(how, " ")[0]+"-proof-does-not-verify", "rpc/core served an inclusion proof that is not the audit path of the tx it accompanies against the block's data hash: "+j.Why, w)
 			return
@@ -657,6 +689,11 @@ func (cc *chainCtx) serverSide(c *verdict.Ctx) {
 			return
 		}
 		c.Count("server.proofs_verified."+strings.Split(how, " ")[0], 1)
+		// judged OK: 0 <= index < block size, proof index == index, proof total == block size
+		n := len(cc.truth[res.Height].Block.Data.Txs)
+		if int(res.Index) == n-1 && n <= 9 {
+			c.Count(fmt.Sprintf("server.last_tx_position_exact.block_size_%d", n), 1)
+		}
 	}
 	for _, l := range cc.txList {
 		tx := cc.truth[l.H].Block.Data.Txs[l.I]
@@ -682,6 +719,11 @@ func (cc *chainCtx) serverSide(c *verdict.Ctx) {
 			}
 			for _, t := range res.Txs {
 				check("txsearch height "+order, t, nil)
+				if t.Height != h {
+					// identical bytes committed again later: the index keeps one record per hash (search exactness is C19's subject);
+					// the position served is still judged above against the block it names
+					c.Count("not_claimed.txsearch_result_of_a_later_height_for_reindexed_duplicate_tx", 1)
+				}
 			}
 		}
 	}
